@@ -236,7 +236,7 @@ def r13_4(ctx, rep, roles):
     # constructor: (tx, rx) = watch::channel(..)
     for s in inv.aggregates(fx, "Chitchat"):
         f = fx.fns[s.fn]
-        eng2 = sym.Engine(fx, inline_only=set())
+        eng2 = sym.Engine(fx, inline_only=set(getattr(fx, "new_helpers", ())))
         rows = eng2.table(s.fn)
         for row in rows:
             aggs = []
